@@ -1,8 +1,10 @@
 (* C08 — Editor diagnostics and quick-fix edits land exactly on the flagged text.
    Pinned statements only.  Model: Model/PosConv.v (harper-ls pos_conv.rs, the TextEdit of
    diagnostics.rs, the lint selection of document_state.rs; specification side: resolve /
-   client_apply and their LSP-line-end versions).  Proofs: Proofs/PosConvProofs.v. *)
-Require Import Base Suggestion PosConv ListLemmas SuggestionProofs PosConvProofs.
+   client_apply and their LSP-line-end versions).  Proofs: Proofs/PosConvProofs.v.
+   The model follows /repo since 229693d (fix of F9): the lookup theorems carry no class premise any
+   more.  History/C08History.v holds what was true of the code before that commit. *)
+Require Import Base Suggestion PosConv ListLemmas SuggestionProofs PosConvProofs C08History.
 
 (* diagnostic ranges: the position harper computes for a character index, read back as line /
    UTF-16 column (lines split at '\n', astral characters = 2 code units: len_utf16), is that index.
@@ -119,67 +121,36 @@ Check C08_edit_equiv_lsp :
     text_edit s sp t = Ok (r, nt) /\ client_apply_lsp t r nt = Some out /\ apply s sp t = Ok out.
 Print Assumptions C08_edit_equiv_lsp.
 
-(* code-action lookup: outside the known class F9 (position on the final line of the text, that
-   line not being line 0) position_to_index inverts `resolve` on EVERY valid position *)
+(* code-action lookup: position_to_index inverts `resolve` on EVERY valid position of EVERY text (also
+   on the final line, also at the end of the text) — full strength, no class premise *)
 Theorem C08_lookup :
   forall (t : text) (line col i : nat),
-  resolve t (line, col) = Some i -> ~ KnownClass t line -> position_to_index t line col = Ok i.
+  resolve t (line, col) = Some i -> position_to_index t line col = Ok i.
 Proof. exact lookup_correct. Qed.
 Check C08_lookup :
   forall (t : text) (line col i : nat),
-  resolve t (line, col) = Some i -> ~ KnownClass t line -> position_to_index t line col = Ok i.
+  resolve t (line, col) = Some i -> position_to_index t line col = Ok i.
 Print Assumptions C08_lookup.
 
 (* ... in particular on every position an LSP client regards as valid *)
 Theorem C08_lookup_lsp :
   forall (t : text) (line col i : nat),
-  no_lone_cr t -> resolve_lsp t (line, col) = Some i -> ~ KnownClass t line ->
-  position_to_index t line col = Ok i.
+  no_lone_cr t -> resolve_lsp t (line, col) = Some i -> position_to_index t line col = Ok i.
 Proof. exact lookup_correct_lsp. Qed.
 Check C08_lookup_lsp :
   forall (t : text) (line col i : nat),
-  no_lone_cr t -> resolve_lsp t (line, col) = Some i -> ~ KnownClass t line ->
-  position_to_index t line col = Ok i.
+  no_lone_cr t -> resolve_lsp t (line, col) = Some i -> position_to_index t line col = Ok i.
 Print Assumptions C08_lookup_lsp.
 
-(* the class is exact: EVERY valid position inside it is answered with an earlier index (F9) *)
-Theorem C08_lookup_known_class_exact :
-  forall (t : text) (line col i : nat),
-  resolve t (line, col) = Some i -> KnownClass t line ->
-  exists j, position_to_index t line col = Ok j /\ j < i.
-Proof. exact lookup_known_class_wrong. Qed.
-Check C08_lookup_known_class_exact :
-  forall (t : text) (line col i : nat),
-  resolve t (line, col) = Some i -> KnownClass t line ->
-  exists j, position_to_index t line col = Ok j /\ j < i.
-Print Assumptions C08_lookup_known_class_exact.
-
-(* F9, the concrete witness: "ab\ncd", cursor (1,0) on the 'c' of a lint on "cd": index 0 is
-   answered and the lint is not offered *)
-Theorem C08_lookup_refuted :
-  exists t line col i,
-    KnownClass t line /\ resolve t (line, col) = Some i /\ i < length t /\
-    position_to_index t line col <> Ok i /\
-    selected t ((line, col), (line, col)) [mkspan 3 5] = Ok [].
-Proof. exact lookup_refuted. Qed.
-Check C08_lookup_refuted :
-  exists t line col i,
-    KnownClass t line /\ resolve t (line, col) = Some i /\ i < length t /\
-    position_to_index t line col <> Ok i /\
-    selected t ((line, col), (line, col)) [mkspan 3 5] = Ok [].
-Print Assumptions C08_lookup_refuted.
-
-(* range_to_span (Span::new can panic): total and exact on valid ranges outside the class *)
+(* range_to_span (Span::new can panic): total and exact on every valid ordered range *)
 Theorem C08_range_to_span :
   forall (t : text) (p1 p2 : position) (i1 i2 : nat),
   resolve t p1 = Some i1 -> resolve t p2 = Some i2 -> i1 <= i2 ->
-  ~ KnownClass t (fst p1) -> ~ KnownClass t (fst p2) ->
   range_to_span t (p1, p2) = Ok (mkspan i1 i2).
 Proof. exact range_to_span_correct. Qed.
 Check C08_range_to_span :
   forall (t : text) (p1 p2 : position) (i1 i2 : nat),
   resolve t p1 = Some i1 -> resolve t p2 = Some i2 -> i1 <= i2 ->
-  ~ KnownClass t (fst p1) -> ~ KnownClass t (fst p2) ->
   range_to_span t (p1, p2) = Ok (mkspan i1 i2).
 Print Assumptions C08_range_to_span.
 
@@ -188,13 +159,11 @@ Print Assumptions C08_range_to_span.
 Theorem C08_selected_exact :
   forall (t : text) (p1 p2 : position) (i1 i2 : nat) (lints : list span),
   resolve t p1 = Some i1 -> resolve t p2 = Some i2 -> i1 <= i2 ->
-  ~ KnownClass t (fst p1) -> ~ KnownClass t (fst p2) ->
   selected t (p1, p2) lints = Ok (filter (covers i1) lints).
 Proof. exact selected_correct. Qed.
 Check C08_selected_exact :
   forall (t : text) (p1 p2 : position) (i1 i2 : nat) (lints : list span),
   resolve t p1 = Some i1 -> resolve t p2 = Some i2 -> i1 <= i2 ->
-  ~ KnownClass t (fst p1) -> ~ KnownClass t (fst p2) ->
   selected t (p1, p2) lints = Ok (filter (covers i1) lints).
 Print Assumptions C08_selected_exact.
 
@@ -202,17 +171,55 @@ Print Assumptions C08_selected_exact.
 Theorem C08_code_action_selected :
   forall (t : text) (p1 p2 : position) (i1 i2 : nat) (lints : list span) (sp : span),
   resolve t p1 = Some i1 -> resolve t p2 = Some i2 -> i1 <= i2 ->
-  ~ KnownClass t (fst p1) -> ~ KnownClass t (fst p2) ->
   In sp lints -> sstart sp <= i1 < send sp ->
   exists sel, selected t (p1, p2) lints = Ok sel /\ In sp sel.
 Proof. exact code_action_selected. Qed.
 Check C08_code_action_selected :
   forall (t : text) (p1 p2 : position) (i1 i2 : nat) (lints : list span) (sp : span),
   resolve t p1 = Some i1 -> resolve t p2 = Some i2 -> i1 <= i2 ->
-  ~ KnownClass t (fst p1) -> ~ KnownClass t (fst p2) ->
   In sp lints -> sstart sp <= i1 < send sp ->
   exists sel, selected t (p1, p2) lints = Ok sel /\ In sp sel.
 Print Assumptions C08_code_action_selected.
+
+(* harper's two conversions are inverse to each other: index -> position -> index ... *)
+Theorem C08_roundtrip_index :
+  forall (t : text) (i : nat), i <= length t ->
+  exists l c, index_to_position t i = Ok (l, c) /\ position_to_index t l c = Ok i.
+Proof. exact roundtrip_index. Qed.
+Check C08_roundtrip_index :
+  forall (t : text) (i : nat), i <= length t ->
+  exists l c, index_to_position t i = Ok (l, c) /\ position_to_index t l c = Ok i.
+Print Assumptions C08_roundtrip_index.
+
+(* ... and span -> range -> span (the range of a diagnostic sent back by the editor is the lint's span) *)
+Theorem C08_roundtrip_span :
+  forall (t : text) (sp : span), span_in (length t) sp ->
+  exists r, span_to_range t sp = Ok r /\ range_to_span t r = Ok (mkspan (sstart sp) (send sp)).
+Proof. exact roundtrip_span. Qed.
+Check C08_roundtrip_span :
+  forall (t : text) (sp : span), span_in (length t) sp ->
+  exists r, span_to_range t sp = Ok r /\ range_to_span t r = Ok (mkspan (sstart sp) (send sp)).
+Print Assumptions C08_roundtrip_span.
+
+(* end to end inside the conversion layer: at ANY character of ANY lint inside the text, addressed by the
+   position harper itself publishes for it, a cursor request and a selection up to the diagnostic's end
+   both offer that lint *)
+Theorem C08_code_action_at_published :
+  forall (t : text) (lints : list span) (sp : span) (i : nat),
+  span_in (length t) sp -> In sp lints -> sstart sp <= i < send sp ->
+  exists p pe sel sel',
+    index_to_position t i = Ok p /\ index_to_position t (send sp) = Ok pe /\
+    selected t (p, p) lints = Ok sel /\ In sp sel /\
+    selected t (p, pe) lints = Ok sel' /\ In sp sel'.
+Proof. exact code_action_at_published. Qed.
+Check C08_code_action_at_published :
+  forall (t : text) (lints : list span) (sp : span) (i : nat),
+  span_in (length t) sp -> In sp lints -> sstart sp <= i < send sp ->
+  exists p pe sel sel',
+    index_to_position t i = Ok p /\ index_to_position t (send sp) = Ok pe /\
+    selected t (p, p) lints = Ok sel /\ In sp sel /\
+    selected t (p, pe) lints = Ok sel' /\ In sp sel'.
+Print Assumptions C08_code_action_at_published.
 
 (* totality (no panic) of the four conversion functions on in-range inputs *)
 Theorem C08_index_to_position_total :
@@ -245,44 +252,44 @@ Check C08_position_to_index_total :
   forall (t : text) (line col : nat), exists i, position_to_index t line col = Ok i /\ i <= length t.
 Print Assumptions C08_position_to_index_total.
 
-(* the code with fixes/F9.diff applied (Model: position_to_index_fixed; NOT the current tree):
-   C08_lookup without the KnownClass premise *)
-Theorem C08_lookup_fixed :
-  forall (t : text) (line col i : nat),
-  resolve t (line, col) = Some i -> position_to_index_fixed t line col = Ok i.
-Proof. exact lookup_fixed_correct. Qed.
-Check C08_lookup_fixed :
-  forall (t : text) (line col i : nat),
-  resolve t (line, col) = Some i -> position_to_index_fixed t line col = Ok i.
-Print Assumptions C08_lookup_fixed.
-
-(* ... the patch changes nothing outside the class *)
-Theorem C08_lookup_fixed_outside :
+(* ---- HISTORY (the code before 229693d, Model: position_to_index_old; NOT the current tree) ---- *)
+(* the fix of F9 changed the answer only for positions on the final line of a text, line >= 1 ... *)
+Theorem C08_fix_confined :
   forall (t : text) (line col : nat),
-  ~ KnownClass t line -> position_to_index_fixed t line col = position_to_index t line col.
-Proof. exact p2i_fixed_outside. Qed.
-Check C08_lookup_fixed_outside :
+  ~ KnownClass t line -> position_to_index t line col = position_to_index_old t line col.
+Proof. exact fix_confined. Qed.
+Check C08_fix_confined :
   forall (t : text) (line col : nat),
-  ~ KnownClass t line -> position_to_index_fixed t line col = position_to_index t line col.
-Print Assumptions C08_lookup_fixed_outside.
+  ~ KnownClass t line -> position_to_index t line col = position_to_index_old t line col.
+Print Assumptions C08_fix_confined.
 
-Theorem C08_selected_fixed :
-  forall (t : text) (p1 p2 : position) (i1 i2 : nat) (lints : list span),
-  resolve t p1 = Some i1 -> resolve t p2 = Some i2 -> i1 <= i2 ->
-  selected_fixed t (p1, p2) lints = Ok (filter (covers i1) lints).
-Proof. exact selected_fixed_correct. Qed.
-Check C08_selected_fixed :
-  forall (t : text) (p1 p2 : position) (i1 i2 : nat) (lints : list span),
-  resolve t p1 = Some i1 -> resolve t p2 = Some i2 -> i1 <= i2 ->
-  selected_fixed t (p1, p2) lints = Ok (filter (covers i1) lints).
-Print Assumptions C08_selected_fixed.
+(* ... and there it changed the answer for EVERY valid position, from a wrong one to the right one: what
+   the reverse patch notes/mutations/C08-revert-F9.diff brings back is exactly KnownClass *)
+Theorem C08_lookup_old_known_class_exact :
+  forall (t : text) (line col i : nat),
+  resolve t (line, col) = Some i -> KnownClass t line ->
+  position_to_index t line col = Ok i /\ position_to_index_old t line col <> Ok i.
+Proof. exact fix_changes_every_valid_position_of_the_class. Qed.
+Check C08_lookup_old_known_class_exact :
+  forall (t : text) (line col i : nat),
+  resolve t (line, col) = Some i -> KnownClass t line ->
+  position_to_index t line col = Ok i /\ position_to_index_old t line col <> Ok i.
+Print Assumptions C08_lookup_old_known_class_exact.
 
-Theorem C08_position_to_index_fixed_total :
-  forall (t : text) (line col : nat), exists i, position_to_index_fixed t line col = Ok i /\ i <= length t.
-Proof. exact position_to_index_fixed_total. Qed.
-Check C08_position_to_index_fixed_total :
-  forall (t : text) (line col : nat), exists i, position_to_index_fixed t line col = Ok i /\ i <= length t.
-Print Assumptions C08_position_to_index_fixed_total.
+(* F9 as it was, the concrete witness (corpus/C08/edge.json): "ab\ncd", cursor (1,0) on the 'c' of a lint
+   on "cd": the OLD code answered index 0 and the lint was not offered *)
+Theorem C08_lookup_old_refuted :
+  exists t line col i,
+    KnownClass t line /\ resolve t (line, col) = Some i /\ i < length t /\
+    position_to_index_old t line col <> Ok i /\
+    selected_old t ((line, col), (line, col)) [mkspan 3 5] = Ok [].
+Proof. exact lookup_old_refuted. Qed.
+Check C08_lookup_old_refuted :
+  exists t line col i,
+    KnownClass t line /\ resolve t (line, col) = Some i /\ i < length t /\
+    position_to_index_old t line col <> Ok i /\
+    selected_old t ((line, col), (line, col)) [mkspan 3 5] = Ok [].
+Print Assumptions C08_lookup_old_refuted.
 
 (* ------------------------------------------------------------------------------------------ *)
 (*  non-vacuity: the hypotheses are satisfiable on non-trivial inputs                            *)
@@ -314,24 +321,37 @@ Example C08_ex_edit :
   text_edit (ReplaceWith [120%N]) (mkspan 1 6) ex_text = Ok (((0, 1), (1, 3)), [120%N]).
 Proof. split; [split; cbn; lia|]. now vm_compute. Qed.
 
-(* a valid position outside the class (line 1 of 3) and one inside it (line 2, the final line) *)
+(* a valid position on a middle line and one on the final line (line 2, not newline-terminated: the
+   class the fix of F9 repaired; the OLD code answered 4 there) *)
 Example C08_ex_lookup :
-  resolve ex_text (1, 3) = Some 6 /\ ~ KnownClass ex_text 1 /\ position_to_index ex_text 1 3 = Ok 6 /\
-  resolve ex_text (2, 0) = Some 8 /\ KnownClass ex_text 2 /\ position_to_index ex_text 2 0 = Ok 4 /\
-  position_to_index_fixed ex_text 2 0 = Ok 8 /\
-  selected ex_text ((1, 3), (1, 4)) [mkspan 0 2; mkspan 4 7; mkspan 6 7; mkspan 7 9] = Ok [mkspan 4 7; mkspan 6 7].
+  resolve ex_text (1, 3) = Some 6 /\ position_to_index ex_text 1 3 = Ok 6 /\
+  resolve ex_text (2, 0) = Some 8 /\ KnownClass ex_text 2 /\ position_to_index ex_text 2 0 = Ok 8 /\
+  position_to_index_old ex_text 2 0 = Ok 4 /\
+  resolve ex_text (2, 1) = Some 9 /\ position_to_index ex_text 2 1 = Ok 9 /\
+  selected ex_text ((1, 3), (1, 4)) [mkspan 0 2; mkspan 4 7; mkspan 6 7; mkspan 7 9] = Ok [mkspan 4 7; mkspan 6 7] /\
+  selected ex_text ((2, 0), (2, 1)) [mkspan 0 2; mkspan 4 7; mkspan 6 7; mkspan 7 9] = Ok [mkspan 7 9].
 Proof.
-  split; [now vm_compute|]. split; [unfold KnownClass; vm_compute; lia|]. split; [now vm_compute|].
-  split; [now vm_compute|]. split; [unfold KnownClass; vm_compute; lia|]. now vm_compute.
+  split; [now vm_compute|]. split; [now vm_compute|]. split; [now vm_compute|].
+  split; [unfold KnownClass; vm_compute; lia|]. now vm_compute.
 Qed.
 
-(* the patched model keeps the answers the pinned harper-ls tests encode:
+(* the hypotheses of C08_code_action_at_published / C08_roundtrip_span on the lint [8,9) = "d", the last
+   character of a text whose last line has no newline *)
+Example C08_ex_published :
+  span_in (length ex_text) (mkspan 8 9) /\ In (mkspan 8 9) [mkspan 0 2; mkspan 8 9] /\
+  index_to_position ex_text 8 = Ok (2, 0) /\ index_to_position ex_text 9 = Ok (2, 1) /\
+  selected ex_text ((2, 0), (2, 1)) [mkspan 0 2; mkspan 8 9] = Ok [mkspan 8 9] /\
+  range_to_span ex_text ((2, 0), (2, 1)) = Ok (mkspan 8 9).
+Proof. split; [split; cbn; lia|]. split; [right; now left|]. now vm_compute. Qed.
+
+(* the model keeps the answers the pinned harper-ls tests encode (they constrain the fix: a column past
+   the end of an EMPTY last line keeps its historical answer):
    end_of_file "This is a short test" (1,20) -> 20 is checked on the shape "abc" (1,3) -> 3;
    issue_250 "Hello thur\n" (1,9) -> 9, (1,10) -> 10 and end_of_line on "Hello thur\n" directly *)
-Example C08_ex_fixed_keeps_pinned_tests :
+Example C08_ex_keeps_pinned_tests :
   let hello := [72; 101; 108; 108; 111; 32; 116; 104; 117; 114; 10]%N in
-  position_to_index_fixed hello 1 9 = Ok 9 /\ position_to_index_fixed hello 1 10 = Ok 10 /\
-  position_to_index_fixed hello 1 0 = Ok 11 /\ position_to_index hello 1 0 = Ok 0 /\
-  position_to_index_fixed [97; 98; 99]%N 1 3 = Ok 3 /\
-  position_to_index_fixed [97; 98; 10; 99; 100]%N 1 0 = Ok 3.
+  position_to_index hello 1 9 = Ok 9 /\ position_to_index hello 1 10 = Ok 10 /\
+  position_to_index hello 1 0 = Ok 11 /\ position_to_index_old hello 1 0 = Ok 0 /\
+  position_to_index [97; 98; 99]%N 1 3 = Ok 3 /\
+  position_to_index [97; 98; 10; 99; 100]%N 1 0 = Ok 3.
 Proof. now vm_compute. Qed.
